@@ -123,7 +123,7 @@ def tagname(p):
     return "_".join(p).replace(".", "_")
 
 
-def gen_files(rng, wild=False, prefix=(), outside=None):
+def gen_files(rng, wild=False, prefix=(), outside=None, cxx=False):
     """Headers (1-4 names, each in 1-3 directories: clashes are the norm; bare, guarded or #pragma once;
     they define, undefine and test the macros the compiled files test) and 2-4 compiled files.
     `prefix` is prepended to every path; `outside` (a path prefix) receives some header copies."""
@@ -176,9 +176,16 @@ def gen_files(rng, wild=False, prefix=(), outside=None):
         fwd.append([wname])
     names = names + fwd
     mains = [prefix + m for m in rng.sample(MAINS, rng.randint(2, 4))]
+    if cxx and rng.random() < 0.45:
+        # opt-in (C08): a mixed-language code base - some compiled files get a C++ extension (the language comes
+        # from the extension only; parsing is the same), at least one stays C, so that the shared headers are
+        # reached from translation units of two languages in one run
+        k = rng.randint(1, len(mains) - 1)
+        for i in rng.sample(range(len(mains)), k):
+            mains[i] = mains[i][:-1] + [mains[i][-1].rsplit(".", 1)[0] + rng.choice([".cpp", ".cpp", ".cc", ".cxx"])]
     if outside is not None and rng.random() < 0.35:
         mains.append(list(outside) + ["ext", "e.c"])       # a compiled file outside the code-base directory
-    for m in mains:
+    for mi, m in enumerate(mains):
         body = []
         if rng.random() < 0.85:
             body.append(["Inc", [rng.choice(["Q", "A"]), rng.choice(names)]])
@@ -187,7 +194,7 @@ def gen_files(rng, wild=False, prefix=(), outside=None):
             body += [["If", ["Defd", f]], ["Code"], ["Endif"]]
         # macros flowing from one compiled file to the next: this file defines (or undefines) its own
         # tuning macro AFTER any forced include and tests the other files' ones
-        mine = TUNE[len([x for x in files.values() if x[0][-1].endswith(".c")]) % len(TUNE)]
+        mine = TUNE[mi % len(TUNE)]
         r = rng.random()
         if r < 0.6:
             own = [["Undef", mine], ["Def", mine, rng.choice(["E", 1])]]
